@@ -224,6 +224,15 @@ impl RetryManager {
 
     fn start_retrying(&self, retrier: Arc<Retrier>) {
         log::info!("Retrying tower {}", retrier.tower_id);
+        // Appointments may have been added as pending without telling the retrier (e.g. while the tower was flagged as
+        // unreachable and the retrier was about to be woken up). Make sure nothing pending is left behind.
+        retrier.pending_appointments.lock().unwrap().extend(
+            self.wt_client
+                .lock()
+                .unwrap()
+                .dbm
+                .load_appointment_locators(retrier.tower_id, crate::AppointmentStatus::Pending),
+        );
         retrier.start(self.max_elapsed_time_secs, self.max_interval_time_secs);
     }
 }
